@@ -128,7 +128,8 @@ def gen_filters(rng, spec):
     return [[gen_filter1(rng, spec) for _ in range(rng.choice([1, 2]))] for _ in range(2)]
 
 
-KINDS = ["to_pandas"] * 4 + ["slice"] * 2 + ["index", "slice_only", "slice_stats", "iter", "head", "statistics", "count", "columns", "pickle", "schema_text"]
+KINDS = ["to_pandas"] * 4 + ["slice"] * 2 + ["index", "slice_only", "slice_stats", "iter", "head", "statistics", "count", "columns", "pickle", "schema_text",
+                                                "stats_fn", "sorted_cols", "sorted_cols", "filter_rgs", "meta"]
 
 
 def gen_op(rng, spec, kind=None):
@@ -153,8 +154,10 @@ def gen_op(rng, spec, kind=None):
         op["i"] = rng.randrange(-nrg, nrg)
     if kind == "head":
         op["n"] = rng.choice([1, 5, 30, spec["n"] + 5])
-    if kind == "count" and rng.random() < 0.7 and (spec["kind"] != "file" or spec["numeric"]):
+    if kind in ("count", "sorted_cols") and rng.random() < 0.7 and (spec["kind"] != "file" or spec["numeric"]):
         op["filters"] = gen_filters(rng, spec)
+    if kind == "filter_rgs":
+        op["filters"] = gen_filters(rng, spec) if (spec["kind"] != "file" or spec["numeric"]) else []
     return op
 
 
@@ -561,8 +564,9 @@ def fixed_ops(spec):
     ops = [{"op": "to_pandas"}, {"op": "to_pandas", "columns": spec["cols"][:2], "index": False}, {"op": "to_pandas", "columns": spec["cols"][-1:]},
            {"op": "slice", "i": 0, "j": 1}, {"op": "slice_only", "i": 1, "j": None}, {"op": "index", "i": -1}, {"op": "iter"},
            {"op": "head", "n": 3}, {"op": "statistics"}, {"op": "count"}, {"op": "columns"}, {"op": "pickle"},
-           {"op": "slice_stats", "i": 0, "j": 1}]
+           {"op": "slice_stats", "i": 0, "j": 1}, {"op": "schema_text"}, {"op": "sorted_cols"}, {"op": "stats_fn"}, {"op": "meta"}]
     for c in sorted(spec["numeric"])[:2]:
+        ops[-3] = {"op": "sorted_cols", "filters": [[c, ">=", spec["numeric"][c][1]]]}
         ops[2] = {"op": "to_pandas", "filters": [[c, ">=", spec["numeric"][c][1]]]}
         ops[9] = {"op": "count", "filters": [[c, "<", spec["numeric"][c][1]]]}
         ops[6] = {"op": "iter", "filters": [[c, "!=", spec["numeric"][c][0]]]}
@@ -588,6 +592,12 @@ FIXED_OPS = [
     {"op": "slice", "i": 0, "j": 2, "filters": [["t", ">", {"dt": "2020-01-01T05:00"}]]},
     {"op": "slice_stats", "i": 1, "j": None},
     {"op": "schema_text"},
+    # the module-level functions taking the handle (statistics use), with and without filters
+    {"op": "sorted_cols", "filters": [["i", ">", 30]]},
+    {"op": "stats_fn"},
+    {"op": "sorted_cols"},
+    {"op": "filter_rgs", "filters": [["f", "<", 40.0], ["i", ">=", 0]]},
+    {"op": "meta"},
 ]
 
 
@@ -640,7 +650,7 @@ def footprint_jobs(ctx, datasets, rng, quick):
         for i in range(0, len(ops), 3):
             jobs.append(mk(path, "fresh", ops[i:i + 3]))
             owner.append(di)
-        wsel = (ops[1:3] + ops[3:4] + ops[8:10] + ops[11:14] + [o for o in ops if o["op"] in ("slice_stats", "schema_text")][:2]) if quick else ops
+        wsel = (ops[1:3] + ops[3:4] + ops[8:10] + ops[11:14] + [o for o in ops if o["op"] in ("slice_stats", "schema_text", "sorted_cols", "stats_fn", "meta")] + ops[8:9]) if quick else ops
         sels[di] = wsel
         half = (len(wsel) + 1) // 2           # two warm handles per dataset (shorter critical path)
         for part in (wsel[:half], wsel[half:]):
@@ -649,7 +659,7 @@ def footprint_jobs(ctx, datasets, rng, quick):
                 owner.append(di)
         # the same premise at bytecode granularity (every instruction of fastparquet frames) for the short operations,
         # in the thorough tier for all
-        short = [o for o in ops if o["op"] in ("slice_only", "count", "statistics", "columns", "head", "schema_text")]
+        short = [o for o in ops if o["op"] in ("slice_only", "count", "statistics", "columns", "head", "schema_text", "sorted_cols", "meta")]
         osel = (short[:3] + short[-2:]) if (quick or spec["kind"] == "file") else (short + [o for o in ops if o["op"] in ("slice", "pickle", "index")][:4] + ops[1:3])
         for i in range(0, len(osel), 3):
             jobs.append(mk(path, "fresh-opcode", osel[i:i + 3]))
@@ -892,8 +902,27 @@ def check_pair(ctx, spec, path, solo, ops, plan, what, opcodes=False):
     return failed
 
 
+class Clock:
+    """wall-clock cap of one phase job (a loaded machine must not turn a long job into a 'hang' report): the case counts
+    are fixed, the cap only cuts them short; what was cut is recorded in the evidence"""
+
+    def __init__(self, ctx, name, seconds):
+        import time
+        self.t0, self.cap, self.ctx, self.name = time.time(), seconds, ctx, name
+
+    def over(self):
+        import time
+        if time.time() - self.t0 > self.cap:
+            self.ctx.extra.setdefault("phase_time_cap_reached", [])
+            if self.name not in self.ctx.extra["phase_time_cap_reached"]:
+                self.ctx.extra["phase_time_cap_reached"].append(self.name)
+            return True
+        return False
+
+
 def forced_search(ctx, datasets, rng, quick, budget=None):
     per_ds = budget if budget is not None else (60 if quick else 600) // len(datasets)
+    clock = Clock(ctx, "forced", 70 if quick else 1200)
     for spec, path, solo in datasets:
         pool = fixed_ops(spec) + [gen_op(rng, spec) for _ in range(6 if quick else 30)]
         wp = {}
@@ -901,11 +930,12 @@ def forced_search(ctx, datasets, rng, quick, budget=None):
         # writers first: operations that write shared state, preempted right after each write
         cand = []
         for a in pool:
-            if a["op"] in ("to_pandas", "iter", "head", "slice", "count", "statistics", "pickle", "index", "slice_only", "slice_stats"):
+            if a["op"] in ("to_pandas", "iter", "head", "slice", "count", "statistics", "pickle", "index", "slice_only", "slice_stats",
+                           "sorted_cols", "stats_fn", "filter_rgs", "meta", "schema_text"):
                 cand.append(a)
         rng.shuffle(cand)
         for a in cand:
-            if done >= per_ds:
+            if done >= per_ds or clock.over():
                 break
             if okey(a) not in wp:
                 solo(a)               # (an operation that does not return alone ends the job here)
@@ -917,6 +947,8 @@ def forced_search(ctx, datasets, rng, quick, budget=None):
             if len(ks) > 4:
                 ks = [0, 1] + sorted(rng.sample(ks[2:], 2))
             for k in ks:
+                if clock.over():
+                    break
                 check_pair(ctx, spec, path, solo, [a, b], [[0, k, "writes"], [1, BIG, "lines"]], "after-write-%s" % ("0" if k == 0 else "k"), opc and k > 0)
                 done += 1
                 if k > 0:
@@ -1010,7 +1042,10 @@ def multi_switch(ctx, datasets, rng, quick):
     """2-3 threads, random plans with many switches at line granularity (both directions)"""
     from fastparquet import ParquetFile
     n = 10 if quick else 60
+    clock = Clock(ctx, "multi_switch", 60 if quick else 1200)
     for r in range(n):
+        if clock.over():
+            break
         spec, path, solo = datasets[r % len(datasets)]
         nt = rng.choice([2, 2, 3])
         ops = [gen_op(rng, spec) for _ in range(nt)]
@@ -1075,24 +1110,35 @@ def storm_search(ctx, datasets, rng, quick, share=None):
     npairs = 16 if quick else 48
     max_calls = 500 if quick else 1500
     broken = bool(ctx.broken)
+    clock = Clock(ctx, "storm", 70 if quick else 1200)
     if broken:
         npairs, max_calls = (24, 2500) if quick else (96, 8000)
     for n_, (spec, path, solo) in enumerate(datasets):
         writers = [{"op": "count", "filters": [["t", ">", {"dt": "2020-01-01T07:00"}]]}, {"op": "statistics"}, {"op": "slice_only", "i": 0, "j": 1},
                    {"op": "head", "n": 3, "columns": ["i"]}, {"op": "to_pandas", "columns": ["f"], "filters": [["f", ">", 5.0]]},
-                   {"op": "index", "i": 0, "columns": ["i"]}]
-        readers = [{"op": "columns"}, {"op": "to_pandas"}, {"op": "statistics"}, {"op": "count", "filters": [["t", "<=", {"dt": "2020-01-02T01:00"}]]},
+                   {"op": "index", "i": 0, "columns": ["i"]}, {"op": "sorted_cols", "filters": [["i", ">", 10]]}, {"op": "schema_text"}]
+        readers = [{"op": "sorted_cols"}, {"op": "columns"}, {"op": "to_pandas"}, {"op": "statistics"}, {"op": "count", "filters": [["t", "<=", {"dt": "2020-01-02T01:00"}]]},
                    {"op": "pickle"}, {"op": "head", "n": 4}, {"op": "iter", "columns": ["i", "s"]},
                    {"op": "to_pandas", "columns": ["s", "i"], "filters": [["i", "<=", spec.get("offsets", [0, 1])[1]]]}]
         if spec["kind"] == "file":
             fo = fixed_ops(spec)
-            writers = [fo[4], fo[8], fo[9], fo[7], fo[5], fo[2]]
-            readers = [fo[10], fo[0], fo[8], fo[9], fo[11], fo[7], fo[6], fo[1]]
+            writers = [fo[4], fo[8], fo[9], fo[7], fo[5], fo[2], fo[-3], fo[-4]]
+            readers = [fo[-3], fo[10], fo[0], fo[8], fo[9], fo[11], fo[7], fo[6], fo[1]]
         pairs = [(a, b) for a in writers for b in readers]
         rng.shuffle(pairs)
-        # the cheap derived-handle operation against the small readers always
-        pairs = [(writers[2], readers[0]), (writers[0], readers[3])] + pairs
-        for pi, (a, b) in enumerate(pairs[:max(2, npairs // (share or len(datasets)))]):
+        # the cheap derived-handle operation against the small readers always; statistics use through the module-level
+        # functions; two reads of different columns (per-call file handles: one shared file position would mix them up)
+        cols_ = [c for c in spec.get("cols", []) if c in ("i", "f", "s")] or list(spec.get("cols", []))
+        two_reads = ({"op": "to_pandas", "columns": cols_[:1]}, {"op": "to_pandas", "columns": cols_[1:2] or cols_[:1]})
+        always = [(writers[2], readers[1]), (writers[0], readers[4])]
+        if spec["kind"] != "file":
+            always += [(writers[6], {"op": "statistics"}), two_reads]
+        else:
+            always += [two_reads]
+        pairs = always + pairs
+        for pi, (a, b) in enumerate(pairs[:max(len(always), npairs // (share or len(datasets)))]):
+            if clock.over():
+                break
             opc = OPC["ok"] and (pi % 2 == 0)
             wb = solo(b)          # (an operation that does not return alone ends the job here)
             try:
@@ -1106,7 +1152,10 @@ def storm_search(ctx, datasets, rng, quick, share=None):
 def stress(ctx, datasets, rng, quick, r0=0, r1=None):
     from fastparquet import ParquetFile
     rounds = 32 if quick else 160
+    clock = Clock(ctx, "stress", 80 if quick else 1500)
     for r in range(r0, rounds if r1 is None else r1):
+        if clock.over():
+            break
         spec, path, solo = datasets[r % len(datasets)]
         nt = [2, 3, 4, 8, 16, 2, 6, 12][r % 8] if r >= 2 else [2, 16][r]
         same = (r % 7 == 6)
@@ -1206,7 +1255,10 @@ def part_writers(ctx, pq, rng, quick):
     import numpy as np
     from fastparquet import writer
     rounds = 8 if quick else 30
+    clock = Clock(ctx, "part_writers", 90 if quick else 1500)
     for r in range(rounds):
+        if clock.over():
+            break
         spec = gen_dataset(rng, "single", small=True)
         spec["nthreads"] = [2, 4, 8, 16, 3][r % 5]
         case = {"mode": "part", "dataset": spec}
